@@ -441,7 +441,7 @@ def _path_conditions(ins, assign):
                 for o in e.writes:
                     if o.kind == "vec":
                         em.put(o, [None] * 4)
-        out.append((conds, [ins[i] for i in idx], ok))
+        out.append((conds, [ins[i] for i in idx], ok, em))
     return out
 
 
@@ -467,12 +467,12 @@ def check_domain_guards(rule, root=None):
         if len(inputs) > 1:
             assign["T:%s" % inputs[1]] = list(R)
         res = _path_conditions(X.flat_ins(b), assign)
-        if not res or not all(ok for _c, _i, ok in res):
+        if not res or not all(r_[2] for r_ in res):
             rule.skip("aarch64 interval %s" % name, "guard idiom outside the modelled subset")
             continue
         probs = []
         dom = list(L) if which == 0 else list(R)
-        for conds, pins, _ok in res:
+        for conds, pins, _ok, _em in res:
             nan = any("to_bits" in " ".join(o.text for o in x.ops) and "NAN" in " ".join(o.text for o in x.ops) for x in pins)
             facts = set()
             for (a_, rel, b_), truth in conds:
@@ -737,3 +737,189 @@ def check_mask_logic(rule, kind, root=None):
             rule.bad("a64|%s|%s|mask" % (kind, name), "aarch64 %s %s: %s" % (kind, name, verdict[1]), "%s:%d" % (p, b.fn["ln"]))
         else:
             rule.skip("aarch64 %s %s" % (kind, name), verdict[1])
+
+
+
+# ---------------------------------------------------------------------------
+# piecewise interval clauses: one sign class at a time
+
+_SIGNS = ("neg", "zero", "pos")
+
+
+def _class_symbol(name, sign):
+    if sign == "zero":
+        return ZERO
+    return sp.Symbol(name, real=True, negative=True) if sign == "neg" else sp.Symbol(name, real=True, positive=True)
+
+
+def _holds(sign, rel):
+    """truth of `x rel 0` for x of the given sign"""
+    v = {"neg": -1, "zero": 0, "pos": 1}[sign]
+    return {"<": v < 0, "<=": v <= 0, ">": v > 0, ">=": v >= 0, "==": v == 0, "!=": v != 0}[rel]
+
+
+def _expected_unary(op, lo, hi, slo, shi):
+    """[lower, upper] of the interpreter's interval operation for an argument whose bounds have the given signs"""
+    if op == "abs":
+        if slo != "neg":
+            return [lo, hi]
+        if shi != "pos":
+            return [-hi, -lo]
+        return [ZERO, sp.Max(-lo, hi)]
+    if op == "square":
+        if slo == "pos" or (slo == "zero"):
+            return [lo * lo, hi * hi]
+        if shi == "neg" or shi == "zero":
+            return [hi * hi, lo * lo]
+        return [ZERO, sp.Max(lo * lo, hi * hi)]
+    if op == "recip":
+        if slo == "pos" or shi == "neg":
+            return [1 / hi, 1 / lo]
+        return None  # NaN: the domain-guard rule's business
+    if op == "sqrt":
+        if slo == "neg":
+            return None
+        return [sp.sqrt(lo), sp.sqrt(hi)]
+    return None
+
+
+def check_interval_piecewise(rule, root=None):
+    """interval abs / square / recip / sqrt choose between formulas by the signs of the bounds.  For each of the
+    six sign classes of (lower, upper) the clause's own tests select a path; its output lanes, with the class's
+    signs substituted, must be the interval the interpreter computes for that class.  The undecided (`Both`)
+    paths of min / max / and / or must hold the bound-wise min / max (and: the right operand widened to 0)."""
+    p = X.path_of("interval")
+    builders = X.load_builders(p, root)
+    classes = [(a, b) for a in _SIGNS for b in _SIGNS if _SIGNS.index(a) <= _SIGNS.index(b)]
+    for op in ("abs", "square", "recip", "sqrt"):
+        name = "build_%s" % op
+        b = builders.get(name)
+        if b is None:
+            rule.lost("aarch64 interval %s" % name)
+            continue
+        outp = AC.out_param(b)
+        inputs = [n_ for (n_, ty) in b.params if ty == "u8" and n_ != outp]
+        bad = None
+        nchecked = 0
+        for alias in (False, True):
+            ins = X.flat_ins(b)
+            if alias:
+                ins = _copy.deepcopy(ins)
+                for x in ins:
+                    for o in x.ops:
+                        if o.kind == "vec" and o.name == "T:%s" % outp:
+                            o.name = "T:%s" % inputs[0]
+            res = _path_conditions(ins, {"T:%s" % inputs[0]: list(L)})
+            if not res or not all(r_[2] for r_ in res):
+                bad = ("skip", "its tests are outside the modelled idioms")
+                break
+            for slo, shi in classes:
+                want = _expected_unary(op, L[0], L[1], slo, shi)
+                if want is None:
+                    continue
+                sub = {L[0]: _class_symbol("lo", slo), L[1]: _class_symbol("hi", shi)}
+                taken = []
+                for conds, pins, _ok, em in res:
+                    feas = True
+                    for (e_, rel, rhs), truth in conds:
+                        sgn = slo if e_ == L[0] else (shi if e_ == L[1] else None)
+                        if sgn is None or rhs != ZERO:
+                            feas = None
+                            break
+                        if _holds(sgn, rel) != truth:
+                            feas = False
+                            break
+                    if feas is None:
+                        bad = ("skip", "a test compares something other than a bound with zero")
+                        break
+                    if feas:
+                        taken.append(em)
+                if bad:
+                    break
+                if len(taken) != 1:
+                    bad = ("bad", "for lower %s, upper %s the clause's tests select %d paths" % (slo, shi, len(taken)))
+                    break
+                got = taken[0].v.get("T:%s" % (inputs[0] if alias else outp)) or [None] * 4
+                nchecked += 1
+                for l in (0, 1):
+                    if got[l] is None:
+                        bad = ("skip", "bound %d is computed outside the modelled subset" % l)
+                        break
+                    g_ = got[l].subs(sub) if hasattr(got[l], "subs") else got[l]
+                    w_ = want[l].subs(sub) if hasattr(want[l], "subs") else want[l]
+                    if sp.simplify(g_ - w_) != 0:
+                        bad = ("bad", "for an argument with lower %s and upper %s%s the %s bound is `%s`, the interpreter's is `%s`" % ({"neg": "< 0", "zero": "= 0", "pos": "> 0"}[slo], {"neg": "< 0", "zero": "= 0", "pos": "> 0"}[shi], " (output in the operand's register)" if alias else "", ("lower", "upper")[l], g_, w_))
+                        break
+                if bad:
+                    break
+            if bad:
+                break
+        if bad is None:
+            rule.ok("aarch64 interval %s: the interpreter's interval in each of the six sign classes of the argument (%d cases, also with the output aliased)" % (name, nchecked), file=p, line=b.fn["ln"])
+        elif bad[0] == "bad":
+            rule.bad("a64|interval|%s|piecewise" % name, "aarch64 interval %s: %s" % (name, bad[1]), "%s:%d" % (p, b.fn["ln"]))
+        else:
+            rule.skip("aarch64 interval %s" % name, bad[1])
+    # the undecided paths of the choice clauses
+    for name, want in (("build_min", lambda a, r: [sp.Min(a[0], r[0]), sp.Min(a[1], r[1])]), ("build_max", lambda a, r: [sp.Max(a[0], r[0]), sp.Max(a[1], r[1])]),
+                       ("build_and", lambda a, r: [sp.Min(r[0], 0), sp.Max(r[1], 0)]), ("build_or", lambda a, r: [sp.Min(a[0], r[0]), sp.Max(a[1], r[1])])):
+        b = builders.get(name)
+        if b is None:
+            rule.lost("aarch64 interval %s" % name)
+            continue
+        outp = AC.out_param(b)
+        inputs = [n_ for (n_, ty) in b.params if ty == "u8" and n_ != outp]
+        verdict = None
+        npaths = 0
+        for alias_to in (None, inputs[0], inputs[1]):
+            ins = X.flat_ins(b)
+            if alias_to:
+                ins = _copy.deepcopy(ins)
+                for x in ins:
+                    for o in x.ops:
+                        if o.kind == "vec" and o.name == "T:%s" % outp:
+                            o.name = "T:%s" % alias_to
+            succ, probs = X.build_cfg(ins)
+            paths, cyc = X.enumerate_paths(ins, succ)
+            if probs or cyc:
+                verdict = ("skip", "control flow not understood")
+                break
+            for path in paths:
+                pins = [ins[i] for i in path if not isinstance(i, str) and ins[i].label is None]
+                both = any(x.mnem == "orr" and any(o.kind == "imm" and o.text == "CHOICE_BOTH" for o in x.ops) for x in pins)
+                nanfill = any("NAN" in " ".join(o.text for o in x.ops) for x in pins)
+                if not both or nanfill:
+                    continue
+                npaths += 1
+                em = SymEmu({"T:%s" % inputs[0]: list(L), "T:%s" % inputs[1]: list(R)}, None)
+                for x in pins:
+                    e = X.effect(x)
+                    if e.kind in ("jmp", "jcc", "cmp", "load", "store"):
+                        continue
+                    try:
+                        em.step(x)
+                    except Unknown:
+                        for o in e.writes:
+                            if o.kind == "vec":
+                                em.put(o, [None] * 4)
+                got = em.v.get("T:%s" % (alias_to or outp)) or [None] * 4
+                w = want(list(L), list(R))
+                for l in (0, 1):
+                    if got[l] is None:
+                        verdict = ("skip", "bound %d of the undecided path is computed outside the modelled subset" % l)
+                    elif sp.simplify(got[l] - w[l]) != 0:
+                        verdict = ("bad", "on the undecided path%s the %s bound is `%s`, the interpreter's is `%s`" % ((" with the output in `%s`'s register" % alias_to) if alias_to else "", ("lower", "upper")[l], got[l], w[l]))
+                    if verdict:
+                        break
+                if verdict:
+                    break
+            if verdict:
+                break
+        if verdict is None and npaths:
+            rule.ok("aarch64 interval %s: the undecided path holds the bound-wise result (%d path placements)" % (name, npaths), file=p, line=b.fn["ln"])
+        elif verdict is None:
+            rule.lost("aarch64 interval %s: its undecided (CHOICE_BOTH) path" % name)
+        elif verdict[0] == "bad":
+            rule.bad("a64|interval|%s|both" % name, "aarch64 interval %s: %s" % (name, verdict[1]), "%s:%d" % (p, b.fn["ln"]))
+        else:
+            rule.skip("aarch64 interval %s" % name, verdict[1])
